@@ -20,7 +20,7 @@ def gen_w(rng, nmax=10000):
     n = 1 if r < 0.03 else int(rng.integers(2, 30)) if r < 0.5 else int(rng.integers(30, 1000)) if r < 0.9 else int(rng.integers(1000, nmax + 1))
     if rng.random() < 0.01:
         n = int(rng.integers(70000, 200000))           # beyond 2**16 entries
-    kind = str(rng.choice(["uniform", "dirichlet", "tempering", "huge-range", "zeros", "ties", "one-hot", "two-level"]))
+    kind = str(rng.choice(["uniform", "dirichlet", "tempering", "huge-range", "zeros", "ties", "one-hot", "two-level", "floor+minority", "pareto"]))
     if kind == "uniform":
         w = np.ones(n)
     elif kind == "dirichlet":
@@ -36,6 +36,13 @@ def gen_w(rng, nmax=10000):
     elif kind == "one-hot":
         w = np.full(n, 1e-30)
         w[rng.integers(n)] = 1.0
+    elif kind == "floor+minority":
+        # a nearly flat floor of distinct light weights and a small minority 2..30 times heavier (counting samples is not counting ESS)
+        w = rng.uniform(0.9, 1.1, n)
+        heavy = rng.random(n) < 10 ** rng.uniform(-3, -1)
+        w = np.where(heavy, w * rng.uniform(2, 30, n), w)
+    elif kind == "pareto":
+        w = 1.0 + rng.pareto(10 ** rng.uniform(-0.3, 0.7), n)
     else:
         w = np.where(rng.random(n) < 0.1, 1.0, 1e-4)
     w = np.abs(np.asarray(w, float))
